@@ -315,6 +315,9 @@ class Deployment:
                         f"driver built from an inheritance chain of {len(s['chain'])} classes: attribute {attr!r} is {grp!r}, expected group {g['name']!r}",
                     )
         self.vectors = [all_vectors(s) for s in specs]  # per device [(g, v)]
+        self.eenabled = [
+            {(g["attr"], v["attr"], e["attr"]): e["enabled"] for g, v in all_vectors(s) for e in v["elements"]} for s in specs
+        ]
         self.genabled = [{g["attr"]: g["enabled"] for g in effective_groups(s).values()} for s in specs]
         self.venabled = [{(g["attr"], v["attr"]): v["enabled"] for g, v in vs} for vs in self.vectors]
 
@@ -329,6 +332,10 @@ class Deployment:
 
     def is_enabled(self, d, g, v):
         return self.genabled[d][g["attr"]] and self.venabled[d][(g["attr"], v["attr"])]
+
+    def element_enabled(self, d, g, v, e):
+        """The per-device element flag (initially the declared one; changed by the 'eenable' op)."""
+        return self.eenabled[d][(g["attr"], v["attr"], e["attr"])]
 
     def apply(self, op):
         """Apply one driver-side op. Returns a label. Library exceptions propagate."""
@@ -352,6 +359,11 @@ class Deployment:
         e = v["elements"][op["e"] % len(v["elements"])]
         el = getattr(inst, e["attr"])
         kind = v["kind"]
+        if t == "eenable":
+            # element-level flag of THIS device (publishes nothing; the next definition reflects it)
+            el.enabled = op["on"]
+            self.eenabled[d][(g["attr"], v["attr"], e["attr"])] = op["on"]
+            return "eenable"
         if t == "select":
             if kind != "Switch":
                 return "noop"
